@@ -17,6 +17,8 @@ Families
                      payoffs incl. forward start, functions and classes; oracle = the contract in python
                      (IEEE double) arithmetic, bitwise.
   variance_swap      VarianceSwap.payoff and realized_variance - strike on all paths, T >= 2 (mpmath oracle).
+  binary_ulp         binaries on prices K -+ 1, 2, 4 ulp (nextafter chains), float32/float64, dyadic and
+                     non-dyadic K; exact comparison; american >= european on the outputs.
   reuse              every history of <= 2 (thorough 3) mutations on ONE derivative object (strike, call flag,
                      start, maturity, added clause, re-registered paths, paths overwritten in place) with
                      payoff() evaluated after every step against the contract for the current state.
@@ -382,8 +384,119 @@ def nondyadic(ctx, block):
 
 
 # ---------------------------------------------------------------------------
+# binaries within a few ulps of the strike
+# ---------------------------------------------------------------------------
+
+def ulp_symbols(K, dtype, steps=(1, 2, 4)):
+    """K and its neighbours 1, 2 and 4 representable numbers below / above, as python floats (exact)."""
+    k = torch.tensor(K, dtype=dtype)
+    out = {0: k}
+    for sign, target in ((-1, 0.0), (1, float("inf"))):
+        cur = k
+        for n in range(1, max(steps) + 1):
+            cur = torch.nextafter(cur, torch.tensor(target, dtype=dtype))
+            if n in steps:
+                out[sign * n] = cur
+    return {n: float(v) for n, v in sorted(out.items())}
+
+
+@family
+def binary_ulp(ctx, block):
+    """'Reaches the strike' is an exact comparison: a terminal (extreme) price one representable number
+    short of K has not reached it.  Alphabet = {K -+ 1, 2, 4 ulp, K, K/2, 2K}; K is representable in the dtype
+    (dyadic, or the dtype's nearest number to 1.1 / 0.9 / 1.3), so the python-float strike equals the tensor
+    entry and the oracle is the exact rational comparison.  All paths of length T; functions and classes;
+    the ordering american >= european is evaluated on the implementation's outputs."""
+    dtype = DT[block["dtype"]]
+    K = block["K"]
+    if float(torch.tensor(K, dtype=dtype)) != K:
+        raise ValueError("K must be representable in the dtype")
+    if "paths" in block:
+        paths = [list(p) for p in block["paths"]]
+        offs = None
+    else:
+        sym = ulp_symbols(K, dtype)
+        A = list(sym.values()) + [K / 2, K * 2]
+        paths = [list(p) for p in itertools.product(A, repeat=block["T"])]
+    N, T = len(paths), len(paths[0])
+    x = torch.tensor(paths, dtype=torch.float64).to(dtype)
+    if x.to(torch.float64).tolist() != paths:
+        raise ValueError("path symbols must be representable in the dtype")
+    stock = market.primary("brownian", dtype=dtype)
+    market.set_buffers(stock, spot=x)
+    fr = [[Fraction(v) for v in p] for p in paths]
+    KF = Fraction(K)
+    near = sum(1 for p in paths if any(v != K and abs(v - K) <= 8 * torch.finfo(dtype).eps * abs(K) for v in p))
+    res = {}
+    for kind in ("european_binary", "american_binary"):
+        for call in block.get("calls", [True, False]):
+            exp = [payoff_ref.payoff(kind, p, KF, call) for p in fr]
+            for entry in block.get("entries", ["fn", "cls"]):
+                if entry == "fn":
+                    site = f"functional.{kind}_payoff"
+                    out = _fn(kind)(x, call=call, strike=K)
+                else:
+                    site = CLASSNAME[kind] + ".payoff"
+                    out = market.derivative(kind, stock, T=T, call=call, strike=K).payoff()
+                ctx.tick(N, nontrivial=near)
+                ol = out.to(torch.float64).tolist()
+                res[(kind, call, entry)] = ol
+                for i in range(N):
+                    if not (ol[i] == exp[i]):
+                        p = paths[i]
+                        ref = p[-1] if kind == "european_binary" else (max(p) if call else min(p))
+                        side = "call" if call else "put"
+                        gap = "at_K" if ref == K else ("within_4ulp_below_K" if K > ref >= K * (1 - 8 * torch.finfo(dtype).eps)
+                                                       else ("within_4ulp_above_K" if K < ref <= K * (1 + 8 * torch.finfo(dtype).eps)
+                                                             else "far_from_K"))
+                        ctx.violation(site, f"ulp:{side}:deciding_price_{gap}",
+                                      f"{kind} {side} with strike {K!r} ({block['dtype']}) on path {p} pays {ol[i]!r}; the "
+                                      f"deciding price {ref!r} {'has' if exp[i] == 1 else 'has not'} reached the strike",
+                                      observed=ol[i], expected=float(exp[i]),
+                                      block={"dtype": block["dtype"], "K": K, "paths": [p], "calls": [call],
+                                             "entries": [entry]})
+                ctx.outcome((kind, call, entry, K, block["dtype"], sum(ol)))
+    for call in block.get("calls", [True, False]):
+        for entry in block.get("entries", ["fn", "cls"]):
+            a, e = res.get(("american_binary", call, entry)), res.get(("european_binary", call, entry))
+            if a is None or e is None:
+                continue
+            ctx.add("relations", N)
+            for i in range(N):
+                if not a[i] >= e[i]:
+                    ctx.violation("AmericanBinaryOption.payoff" if entry == "cls" else "functional.american_binary_payoff",
+                                  f"ulp:order:american<european_binary:{'call' if call else 'put'}",
+                                  f"american binary pays {a[i]} < european binary {e[i]} on path {paths[i]}, strike {K!r}",
+                                  observed=a[i], expected=f">= {e[i]}",
+                                  block={"dtype": block["dtype"], "K": K, "paths": [paths[i]], "calls": [call],
+                                         "entries": [entry]})
+                    break
+
+
+# ---------------------------------------------------------------------------
 # forward start
 # ---------------------------------------------------------------------------
+
+_FS_CACHE = {}
+
+
+def _fs_expected(paths, k16, idx, end):
+    """[(exact payoff, ratio + K)] per path; memoised on the identity of the path list."""
+    key = (id(paths), len(paths), k16, idx, end)
+    hit = _FS_CACHE.get(key)
+    if hit is not None and hit[0] is paths:
+        return hit[1]
+    K = Fraction(k16, SC)
+    out = []
+    for p in _fr(paths):
+        e = payoff_ref.forward_start(p, K, idx, end)
+        ratio = p[len(p) - 1 if end is None else end] / p[idx]
+        out.append((e, float(ratio + K)))
+    if len(_FS_CACHE) > 2000:
+        _FS_CACHE.clear()
+    _FS_CACHE[key] = (paths, out)
+    return out
+
 
 def _fs_bad(out, paths, k16, idx, end, dtype):
     """First path on which a forward-start payoff vector differs from the oracle, as (i, observed, expected),
@@ -391,13 +504,9 @@ def _fs_bad(out, paths, k16, idx, end, dtype):
     (dyadic) strike one more rounding:
     |error| <= eps/2 * ratio + eps/2 * |ratio - K| <= eps * (ratio + K)  -> tol = 2 eps (ratio + K)."""
     eps = torch.finfo(dtype).eps
-    K = Fraction(k16, SC)
     ol = out.to(torch.float64).tolist()
-    for i, p in enumerate(_fr(paths)):
-        e = payoff_ref.forward_start(p, K, idx, end)
-        ratio = p[len(p) - 1 if end is None else end] / p[idx]
-        tol = 2 * eps * float(ratio + K)
-        if ol[i] != ol[i] or abs(Fraction(ol[i]) - e) > tol:
+    for i, (e, scale) in enumerate(_fs_expected(paths, k16, idx, end)):
+        if ol[i] != ol[i] or abs(Fraction(ol[i]) - e) > 2 * eps * scale:
             return i, ol[i], float(e)
     return None
 
@@ -510,12 +619,16 @@ def forward_start_cls(ctx, block):
     N, T = len(paths), len(paths[0])
     x = _tensor(paths, dtype)
     site = "EuropeanForwardStartOption.payoff"
+    given_maturity = {}
     if "pairs" in block:
         pairs = []
-        for start, dt in block["pairs"]:
+        for pr in block["pairs"]:
+            start, dt = pr[0], pr[1]
             idx, kind = payoff_ref.start_index(start, dt)
             if idx is not None:
                 pairs.append((start, dt, idx, kind))
+                if len(pr) > 2:
+                    given_maturity[(start, dt)] = pr[2]
     elif "ns" in block:
         pairs, skipped = fs_grid_pairs(T, block["ns"])
         ctx.add("start_dt_pairs_undecided", skipped)
@@ -527,10 +640,21 @@ def forward_start_cls(ctx, block):
         stock = market.primary("brownian", dtype=dtype, dt=dt)
         market.set_buffers(stock, spot=x)
         ctx.add("start_dt_pairs:" + kind, 1)
-        for k16 in block["strikes16"]:
-            def mini_of(*ps, start=start, dt=dt, k16=k16):
-                return {"dtype": block["dtype"], "paths16": list(ps), "strikes16": [k16], "pairs": [[start, dt]]}
-            d = I.EuropeanForwardStartOption(stock, strike=k16 / SC, maturity=(T - 1) * dt, start=start)
+        # maturities: (T-1) dt (the grid ends at the maturity) and maturities M with a NON-integer M/dt whose
+        # grid has the same ceil(M/dt)+1 = T points (the last grid time overshoots M); the start index does
+        # not depend on the maturity
+        if (start, dt) in given_maturity:
+            maturities = [given_maturity[(start, dt)]]
+        else:
+            maturities = [(T - 1 - f / 64) * dt for f in block.get("mat_fracs64", [0])]
+            maturities = [m for m in maturities if m >= start and m >= 0]
+        for maturity, k16 in itertools.product(maturities, block["strikes16"]):
+            overshoot = Fraction(maturity) / Fraction(dt) < T - 1 - Fraction(1, 2 ** 20)
+
+            def mini_of(*ps, start=start, dt=dt, k16=k16, maturity=maturity):
+                return {"dtype": block["dtype"], "paths16": list(ps), "strikes16": [k16],
+                        "pairs": [[start, dt, maturity]]}
+            d = I.EuropeanForwardStartOption(stock, strike=k16 / SC, maturity=maturity, start=start)
             ctx.tick(N, nontrivial=moving)
             try:
                 out = d.payoff()
@@ -550,8 +674,8 @@ def forward_start_cls(ctx, block):
                 w = _fs_bad(out, paths, k16, idx - 1, None, dtype) if idx >= 1 else (i, None, None)
                 prev_ok = w is None
                 witness = [] if (w is None or w[0] == i) else [paths[w[0]]]
-                cls = fs_class(start, dt, idx, kind, T, prev_ok)
-                ctx.violation(site, cls, f"start={start!r}, dt={dt!r} (exact quotient {float(Fraction(start) / Fraction(dt))!r}"
+                cls = fs_class(start, dt, idx, kind, T, prev_ok) + (":grid_overshoots_maturity" if overshoot else "")
+                ctx.violation(site, cls, f"maturity={maturity!r}, start={start!r}, dt={dt!r} (exact quotient {float(Fraction(start) / Fraction(dt))!r}"
                               f", float quotient {start / dt!r}, contractual start index {idx}): payoff differs from "
                               f"max(S_T/S_start - K, 0) on path/16={paths[i]}, strike/16={k16}"
                               + (" - the price one step before the start time was used" if prev_ok else ""),
@@ -743,7 +867,10 @@ def clauses(ctx, block):
         if bad:
             i = bad[0]
             sorted_names = names == sorted(names)
-            cls = f"fold:{len(seq)}_clauses:{'names_in_order' if sorted_names else 'names_out_of_order'}:{repeated}"
+            inter = [payoff_ref.fold_clauses(frp[i], base[i], seq[:j], barrier) for j in range(len(seq))]
+            zero = "zero_before_a_clause" if any(v == 0 for v in inter) else "nonzero_before_every_clause"
+            cls = (f"fold:{len(seq)}_clauses:{'names_in_order' if sorted_names else 'names_out_of_order'}:{repeated}"
+                   f":{zero}")
             ctx.violation(site, cls, f"payoff with clauses {seq} ({style} callables) registered as {names} on {CLASSNAME[kind]} "
                           f"differs from the fold in registration order (path/16={paths[i]})",
                           observed=ol[i], expected=float(exp[i]), block=mini_of(paths[i]))
@@ -978,15 +1105,17 @@ def run(ctx):
         for dtype in ("float64", "float32"):
             ctx.run("forward_start_fn", {"dtype": dtype, "T": T, "A16": A, "strikes16": fs_strikes})
     dts = [1 / 256, 1 / 128, 1 / 250, 0.01, 1 / 365]
-    ctx.alphabet("forward-start dt", ["1/256", "1/128", "1/250", "0.01", "1/365"])
-    ctx.alphabet("forward-start start/dt", "k + f/64, k = 0..T-1, f in {0, 1, 16, 32, 63}")
+    ctx.alphabet("forward-start dt", ["1/256", "1/128", "1/250", "0.01", "1/365", "0.1"])
+    ctx.alphabet("forward-start start/dt", "k + f/64, k = 0..T-1, f in {0, 1, 16, 32, 45, 63}")
+    ctx.alphabet("forward-start maturity/dt", "T-1 - g/64, g in {0, 16, 32, 48} (grid of T = ceil(M/dt)+1 points), start <= M")
     for T in Ts:
         A = alpha(T) if T <= 3 else A4
         for dtype in ("float64", "float32"):
             if dtype == "float32" and T != 3:
                 continue
             ctx.run("forward_start_cls", {"dtype": dtype, "T": T, "A16": A, "strikes16": fs_strikes[:2],
-                                          "dts": dts, "fracs64": [0, 1, 16, 32, 63]})
+                                          "dts": dts + [0.1], "fracs64": [0, 1, 16, 32, 45, 63],
+                                          "mat_fracs64": [0, 16, 32, 48]})
     # natural on-grid starts: dt = 1/n, start = k/n and k*dt for EVERY k below the path length; paths = the
     # constant path and all its one-time deviations (the price at each single index is observable)
     ns = [250, 100, 50, 365, 256]
@@ -1005,9 +1134,19 @@ def run(ctx):
     ctx.alphabet("non-dyadic strike", nd_K)
     for T in ctx.pick([1, 2, 3], [1, 2, 3, 4, 5]):
         ctx.run("nondyadic", {"T": T, "A": nd_A, "strikes": nd_K})
+    # binaries within a few ulps of the strike
+    ulpK = {"float64": [1.0, 1.25, 1.1, 0.9, 1.3], "float32": [1.0, 1.25] + [float(torch.tensor(v, dtype=torch.float32))
+                                                                         for v in (1.1, 0.9, 1.3)]}
+    ctx.alphabet("ulp strikes", ulpK)
+    ctx.alphabet("ulp price symbols", "K, nextafter chains K -+ 1, 2, 4 ulp, K/2, 2K")
+    for dtype in ("float64", "float32"):
+        for K in ulpK[dtype]:
+            for T in ctx.pick([1, 2], [1, 2, 3]):
+                ctx.run("binary_ulp", {"dtype": dtype, "K": K, "T": T})
     # variance swap
-    vs_dts = [1 / 256, 1 / 250]
-    ctx.alphabet("variance-swap dt", ["1/256", "1/250"])
+    # incl. steps whose reciprocal is not an integer and steps above 1/2 (annualisation is a division by dt)
+    vs_dts = [1 / 256, 1 / 250, 0.003, 0.03, 1 / 252.5, 0.3, 0.7]
+    ctx.alphabet("variance-swap dt", ["1/256", "1/250", "0.003", "0.03", "1/252.5", "0.3", "0.7"])
     for T in Ts:
         if T < 2:
             continue
@@ -1052,12 +1191,25 @@ def run(ctx):
                         continue
                     blocks.append({"dtype": dtype, "T": T, "A16": A4 if T >= 3 else A5, "kind": kind, "call": call,
                                    "strike16": 18 if kind in ("european", "lookback") else 20, "barrier16": 24})
+    # path sets on which the raw payoff is zero on EVERY path (strike above all symbols; one path at / below
+    # the strike, N = 1) and a barrier at the lowest symbol (the knock-out zeroes every path): clauses that do
+    # not map zero to zero (+1) and whatever follows them must still be applied
+    for T in (1, 3):
+        blocks.append({"dtype": "float64", "T": T, "A16": A4, "kind": "european", "call": True, "strike16": 40,
+                       "barrier16": 24})
+        blocks.append({"dtype": "float64", "T": T, "A16": A4, "kind": "european", "call": True, "strike16": 18,
+                       "barrier16": 12})
+        blocks.append({"dtype": "float64", "T": T, "A16": A4, "kind": "american_binary", "call": False,
+                       "strike16": 8, "barrier16": 12})
+    for p1 in ([16], [12], [12, 20, 16]):
+        blocks.append({"dtype": "float64", "paths16": [p1], "kind": "european", "call": True, "strike16": 16,
+                       "barrier16": 24})
     ctx.alphabet("clause callables", ["one function object per symbol", "bound methods of one object",
                                       "fresh function per registration"])
     for b in list(blocks):
         if b["dtype"] == "float64" and (ctx.thorough or (b["kind"] == "european" and b["call"])):
             blocks.append(dict(b, callable="bound_method"))
-        if b["dtype"] == "float64" and b["kind"] == "european" and b["call"] and b["T"] == 3:
+        if b["dtype"] == "float64" and b["kind"] == "european" and b["call"] and b.get("T") == 3:
             blocks.append(dict(b, callable="fresh"))
     if ctx.thorough:
         # all 341 sequences of <= 4 clauses x all name assignments (6565 programs) on the European call
